@@ -23,10 +23,16 @@ deleted behind the client's back: the missing file is noticed by the next alloca
 def WS (s : St) : Prop :=
   ∀ i, bitOf s.bf i = true → ∀ x ∈ s.bad, x.1 = i → s.fileExists.getD x.2 false = false
 
+/-- A set bit names a piece whose recorded hash is the hash of its true content (whatever happens to
+the files: the only pieces for which this can fail are padding-only, and their bit is set by nothing but
+a successful hash check of zeroes). -/
+def PadSound (s : St) : Prop := ∀ i, bitOf s.bf i = true → s.cfg.padOK i = true
+
 structure WSound (s : St) : Prop where
   cfg : CfgWF s.cfg
   bad : BadWF s
   ws : WS s
+  pad : PadSound s
 
 theorem WSound.zero {s : St} (h : WSound s) : Sound0 s := ⟨h.cfg, h.bad⟩
 
@@ -43,10 +49,10 @@ structure Adv (s s' : St) : Prop where
   bf : ∀ i, bitOf s'.bf i = true → (bitOf s.bf i = true ∧ FEle s s' i) ∨ s'.diskOKi i = true
   per : ∀ i, bitOf s'.persisted i = true → bitOf s.persisted i = true ∨ bitOf s.bf i = true ∨ s'.diskOKi i = true
 
-theorem diskOKi_mono {s s' : St} (h : ∀ x ∈ s'.bad, x ∈ s.bad) (i : Nat) (hi : s.diskOKi i = true) :
+theorem diskOKi_mono {s s' : St} (hc : s'.cfg = s.cfg) (h : ∀ x ∈ s'.bad, x ∈ s.bad) (i : Nat) (hi : s.diskOKi i = true) :
     s'.diskOKi i = true := by
   rw [diskOKi_eq_true] at *
-  exact fun x hx => hi x (h x hx)
+  exact ⟨fun x hx => hi.1 x (h x hx), hc ▸ hi.2⟩
 
 theorem FEle.refl (s : St) (i : Nat) : FEle s s i := fun _ _ _ h => h
 
@@ -63,17 +69,17 @@ theorem Adv.trans {a b c : St} (h1 : Adv a b) (h2 : Adv b c) : Adv a c where
     rcases h2.bf i hi with ⟨h, f2⟩ | h
     · rcases h1.bf i h with ⟨h, f1⟩ | h
       · exact Or.inl ⟨h, fun x hx hxi hF => f1 x (h2.bad x hx) hxi (f2 x hx hxi hF)⟩
-      · exact Or.inr (diskOKi_mono h2.bad i h)
+      · exact Or.inr (diskOKi_mono h2.cfg h2.bad i h)
     · exact Or.inr h
   per := fun i hi => by
     rcases h2.per i hi with h | h | h
     · rcases h1.per i h with h | h | h
       · exact Or.inl h
       · exact Or.inr (Or.inl h)
-      · exact Or.inr (Or.inr (diskOKi_mono h2.bad i h))
+      · exact Or.inr (Or.inr (diskOKi_mono h2.cfg h2.bad i h))
     · rcases h1.bf i h with ⟨h, _⟩ | h
       · exact Or.inr (Or.inl h)
-      · exact Or.inr (Or.inr (diskOKi_mono h2.bad i h))
+      · exact Or.inr (Or.inr (diskOKi_mono h2.cfg h2.bad i h))
     · exact Or.inr (Or.inr h)
 
 theorem Sound0.adv {s s' : St} (h : Sound0 s) (a : Adv s s') : Sound0 s' where
@@ -87,17 +93,23 @@ theorem Sound.adv {s s' : St} (h : Sound s) (a : Adv s s') : Sound s' where
   bad := (h.zero.adv a).bad
   bits := fun i hi => by
     rcases a.bf i hi with ⟨h', _⟩ | h'
-    · exact diskOKi_mono a.bad i (h.bits i h')
+    · exact diskOKi_mono a.cfg a.bad i (h.bits i h')
     · exact h'
   pers := fun i hi => by
     rcases a.per i hi with h' | h' | h'
-    · exact diskOKi_mono a.bad i (h.pers i h')
-    · exact diskOKi_mono a.bad i (h.bits i h')
+    · exact diskOKi_mono a.cfg a.bad i (h.pers i h')
+    · exact diskOKi_mono a.cfg a.bad i (h.bits i h')
     · exact h'
+
+theorem PadSound.adv {s s' : St} (h : PadSound s) (a : Adv s s') : PadSound s' := fun i hi => by
+  rcases a.bf i hi with ⟨h', _⟩ | h'
+  · rw [a.cfg]; exact h i h'
+  · exact padOK_of_diskOKi h'
 
 theorem WSound.adv {s s' : St} (h : WSound s) (a : Adv s s') : WSound s' where
   cfg := (h.zero.adv a).cfg
   bad := (h.zero.adv a).bad
+  pad := h.pad.adv a
   ws := fun i hi x hx hxi => by
     rcases a.bf i hi with ⟨h', f⟩ | h'
     · have hmiss := h.ws i h' x (a.bad x hx) hxi
@@ -106,7 +118,7 @@ theorem WSound.adv {s s' : St} (h : WSound s) (a : Adv s s') : WSound s' where
       · have := f x hx hxi hF
         rw [hmiss] at this; cases this
     · rw [diskOKi_eq_true] at h'
-      exact absurd hxi (h' x hx)
+      exact absurd hxi (h'.1 x hx)
 
 /-- The common case: configuration, disk and files untouched, bitfield kept or dropped, resume bitfield
 kept, dropped or overwritten with the bitfield. -/
@@ -351,7 +363,7 @@ theorem markPaddingPieces_adv (s : St) (h : Sound0 s) : Adv s s.markPaddingPiece
     · left; exact ⟨by simpa [hbf] using h1, FEle.of_eq (by simp) i⟩
     · right
       simp only [List.mem_filter, List.mem_range, Bool.and_eq_true] at h1
-      have hd : s.diskOKi i = true := diskOKi_of_no_data s h.bad i (h.cfg i h1.2.1)
+      have hd : s.diskOKi i = true := diskOKi_of_no_data s h.bad i (h.cfg i h1.2.1.1) h1.2.2
       simpa using hd
 
 theorem hadCheck_adv (m : M) : Adv m.1 (hadCheck m).1 := by
@@ -559,13 +571,15 @@ theorem writerRun_adv (m : M) (w : WriteJob) (h : Sound0 m.1) : Adv m.1 (writerR
   · dsimp only
     split
     · next hsecs =>
-      refine handlePieceWriteDone_adv m w false fun _ _ => diskOKi_of_no_data m.1 h.bad _ ?_
-      intro sc hsc
-      have : sc ∉ (m.1.cfg.sections w.piece).filter fun sc => !(m.1.cfg.fpads.getD sc.file false) := by
-        rw [hsecs]; exact List.not_mem_nil
-      simp only [List.mem_filter, hsc, true_and] at this
-      simp at this
-      simp [Cfg.isData, this]
+      refine handlePieceWriteDone_adv m _ false fun hg _ => diskOKi_of_no_data m.1 h.bad _ ?_ ?_
+      · intro sc hsc
+        have : sc ∉ (m.1.cfg.sections w.piece).filter fun sc => !(m.1.cfg.fpads.getD sc.file false) := by
+          rw [hsecs]; exact List.not_mem_nil
+        simp only [List.mem_filter, hsc, true_and] at this
+        simp at this
+        simp [Cfg.isData, this]
+      · simp only [Bool.and_eq_true] at hg
+        exact hg.2
     · split
       · refine Adv.trans ?_ (handlePieceWriteDone_adv _ w true (fun _ h => by cases h))
         exact Adv.frame rfl rfl rfl rfl rfl
@@ -581,7 +595,8 @@ theorem writerRun_adv (m : M) (w : WriteJob) (h : Sound0 m.1) : Adv m.1 (writerR
             simp only [onSt_fst, List.mem_filter] at hx
             exact hx.1
           refine a1.trans (handlePieceWriteDone_adv _ w false fun _ _ => ?_)
-          simp [St.diskOKi]
+          have hpad : m.1.cfg.padOK w.piece = true := padOK_of_stored (by rw [‹List.filter _ _ = _ :: _›]; simp)
+          simp [St.diskOKi, hpad]
 
 /-! ### Workers, handle, step -/
 
